@@ -325,6 +325,10 @@ class Evaluator:
                     return Obj('DragDataPoint', {'Mach': Num(f'({base.names[0]} {it})'), 'CD': Num(f'({base.names[1]} {it})')})
                 if base.kind == 'floats':
                     return Num(f'({base.names[0]} {it})')
+                if base.kind == 'heights':
+                    return Obj('TrajectoryData', {'height': Qty('Distance', f'({base.names[0]} {it})')})
+                if base.kind == 'rows':
+                    return Obj('TrajectoryData', {'time': Num(f'({base.names[0]} {it})')})
                 return Obj('CurvePoint', {k: Num(f'({base.names[0]} {it}).{k}') for k in 'abc'})
             if isinstance(base, SymArr):
                 i = self.ev(idx, env)
@@ -350,6 +354,8 @@ class Evaluator:
         op = e.op
         a = self.ev(e.left, env)
         if isinstance(op, ast.RShift):
+            if isinstance(a, Qty) and a.dim == 'Distance:any':
+                return Num(a.raw)
             if isinstance(a, Qty) and a.dim == 'Distance:ft' and self.dotted(e.right) == 'Distance.Foot':
                 return Num(f'{a.raw}.untilFt')
             if isinstance(a, Qty):
@@ -466,6 +472,8 @@ class Evaluator:
         if isinstance(e, ast.Compare) and len(e.ops) == 1:
             a, b = self.ev(e.left, env), self.ev(e.comparators[0], env)
             op = e.ops[0]
+            if isinstance(a, Qty) and isinstance(b, Qty) and a.dim == b.dim:
+                a, b = Num(a.raw), Num(b.raw)      # quantities compare by their raw magnitudes (C13)
             if isinstance(a, IntC) and isinstance(b, IntC):
                 r = {ast.Eq: a.v == b.v, ast.NotEq: a.v != b.v, ast.Lt: a.v < b.v, ast.LtE: a.v <= b.v, ast.Gt: a.v > b.v, ast.GtE: a.v >= b.v}.get(type(op))
                 if r is None:
@@ -661,6 +669,8 @@ class Evaluator:
             if isinstance(env.get(d), Opaque) and env[d].name.startswith('pair:'):
                 t = '(' + env[d].name[5:] + ''.join(' ' + num(a) for a in args) + ')'
                 return Tup([Num(t + '.1'), Num(t + '.2')])
+            if isinstance(env.get(d), Opaque) and env[d].name == 'id' and len(args) == 1:
+                return args[0]
             if isinstance(env.get(d), Opaque):
                 return Num('(' + env[d].name + ''.join(' ' + num(a) for a in args) + ')')
             # method on self
@@ -681,6 +691,10 @@ class Evaluator:
             base = self.ev(f.value, env)
             if isinstance(base, Vec):
                 return self.call_method('Vector', f.attr, base, args, env)
+        if isinstance(f, ast.Name) and isinstance(env.get(f.id), Opaque):
+            if env[f.id].name == 'id' and len(args) == 1:
+                return args[0]
+            return Num('(' + env[f.id].name + ''.join(' ' + num(a) for a in args) + ')')
         if isinstance(f, ast.Name):
             if f.id in env and isinstance(env[f.id], Closure):
                 c = env[f.id]
@@ -975,6 +989,7 @@ SOURCES = {
     'munition': 'py_ballisticcalc/munition.py',
     'trajdata': 'py_ballisticcalc/trajectory_data/_trajectory_data.py',
     'dragmodel': 'py_ballisticcalc/drag_model.py',
+    'helpers': 'py_ballisticcalc/helpers.py',
 }
 
 N = Num
@@ -1714,6 +1729,85 @@ def emit_init_trajectory(ev):
             f'{g("calc_step")}, {g("barrel_elevation")}))\n')
 
 
+def emit_lookup(ev):
+    """slices of helpers.py: the apex bisection (bracket, condition, test, moves), the two monotone conditions (distance, strict
+    time), the nearest-time comparison and the deviation test"""
+    out = []
+    f = ev.funcs.get('find_index_of_apex_in_points')
+    if f is None:
+        raise Unsupported('find_index_of_apex_in_points not found')
+    wl = [i for i, n in enumerate(f.body) if isinstance(n, ast.While)]
+    if len(wl) != 1:
+        raise Unsupported('apex: one while loop expected')
+    k = wl[0]
+    class Heights(SeqV):   # noqa: E306
+        pass
+    pts = SeqV('heights', ('h',), 'n')
+    env = {'trajectory_points': pts}
+    pre = f.body[:k]
+    guard = [n for n in pre if isinstance(n, ast.If)]
+    want = ast.dump(ast.parse('if points_count == 0:\n    return -1').body[0])
+    if len(guard) != 1 or ast.dump(guard[0]) != want:
+        raise Unsupported('apex: the empty-trajectory guard changed')
+    if ev.block([n for n in pre if not isinstance(n, ast.If)], env) is not None:
+        raise Unsupported('apex: return before the loop')
+    it = lambda v: v.s if isinstance(v, IntSym) else str(v.v)   # noqa: E731
+    out.append(f'/-- `find_index_of_apex_in_points`: the initial bracket -/\ndef apex_init (n : Nat) : Nat × Nat :=\n  ({it(env["left"])}, {it(env["right"])})\n')
+    e2 = dict(env)
+    e2['left'], e2['right'] = IntSym('l'), IntSym('r')
+    c = ev.cond(f.body[k].test, e2)
+    out.append(f'abbrev apex_cond (l r : Nat) : Prop :=\n  {c.s}\n')
+    wb = f.body[k].body
+    if len(wb) != 2 or not isinstance(wb[1], ast.If):
+        raise Unsupported('apex: loop body shape')
+    if ev.block(wb[:1], e2) is not None:
+        raise Unsupported('apex: mid')
+    ct = ev.cond(wb[1].test, e2)
+    out.append(f'/-- still rising at `mid` -/\nabbrev apex_rising (h : Nat → α) (l r : Nat) : Prop :=\n  {ct.s}\n')
+    ea, eb = dict(e2), dict(e2)
+    if ev.block(wb[1].body, ea) is not None or ev.block(wb[1].orelse, eb) is not None:
+        raise Unsupported('apex: moves')
+    out.append(f'def apex_move_right (l r : Nat) : Nat × Nat :=\n  ({it(ea["left"])}, {it(ea["right"])})\n')
+    out.append(f'def apex_move_left (l r : Nat) : Nat × Nat :=\n  ({it(eb["left"])}, {it(eb["right"])})\n')
+    if ast.dump(f.body[-1]) != ast.dump(ast.parse('return left').body[0]):
+        raise Unsupported('apex: the function does not return left')
+    # the monotone conditions: lambdas inside find_index_of_point_for_distance / find_index_for_time_point
+    def lam(fn, which):   # noqa: E306
+        g = ev.funcs.get(fn)
+        ls = [n for n in ast.walk(g) if isinstance(n, ast.Lambda)] if g else []
+        if len(ls) <= which:
+            raise Unsupported(f'{fn}: lambda not found')
+        return ls[which]
+    ld = lam('find_index_of_point_for_distance', 0)
+    c = ev.cond(ld.body, {ld.args.args[0].arg: Obj('TrajectoryData', {'distance': Qty('Distance:any', 'x')}), 'distance': Num('d'),
+                          'distance_unit': StrC('unit')})
+    out.append(f'/-- the condition `find_index_of_point_for_distance` bisects for (`x`: the row\'s distance read in the unit of the query) -/\nabbrev lookup_distance_cond (x d : α) : Prop :=\n  {c.s}\n')
+    g = ev.funcs.get('find_index_for_time_point')
+    ls = [n for n in ast.walk(g) if isinstance(n, ast.Lambda)]
+    if len(ls) != 2:
+        raise Unsupported('find_index_for_time_point: two lambdas expected')
+    c = ev.cond(ls[0].body, {ls[0].args.args[0].arg: Obj('TrajectoryData', {'time': Num('x')}), 'time': Num('t')})
+    out.append(f'/-- the condition the strict time look-up bisects for -/\nabbrev lookup_time_cond (x t : α) : Prop :=\n  {c.s}\n')
+    v = ev.ev(ls[1].body, {ls[1].args.args[0].arg: Obj('TrajectoryData', {'time': Num('x')})})
+    out.append(f'/-- the key of the nearest-time look-up -/\ndef lookup_time_key (x : α) : α :=\n  {num(v)}\n')
+    # deviation test: `if index >= 0 and abs(shot.trajectory[index].time - time) <= max_time_deviation_in_seconds`
+    ifs = [n for n in ast.walk(g) if isinstance(n, ast.If) and 'max_time_deviation_in_seconds' in ast.dump(n.test) and isinstance(n.test, ast.BoolOp)]
+    if len(ifs) != 1:
+        raise Unsupported('find_index_for_time_point: deviation test not found')
+    c = ev.cond(ifs[0].test.values[1], {'shot.trajectory': SeqV('rows', ('time',), 'n'), 'index': IntSym('i'), 'time': Num('t'),
+                                        'max_time_deviation_in_seconds': Num('dev')})
+    out.append(f'/-- the accepted deviation of the nearest row -/\nabbrev lookup_within_deviation (time : Nat → α) (i : Nat) (t dev : α) : Prop :=\n  {c.s}\n')
+    # nearest: the comparison of the two neighbours
+    h = ev.funcs.get('find_nearest_index_satisfying_monotonic_condition')
+    ifs = [n for n in ast.walk(h) if isinstance(n, ast.If) and 'before' in ast.dump(n.test) and 'after' in ast.dump(n.test)] if h else []
+    if len(ifs) != 1:
+        raise Unsupported('nearest: the comparison of the neighbours was not found')
+    c = ev.cond(ifs[0].test, {'arr': SeqV('floats', ('time',), 'n'), 'before': IntSym('before'), 'after': IntSym('after'),
+                              'target_value': Num('t'), 'value_getter': Opaque('id')})
+    out.append(f'/-- nearest-time look-up: the row before the insertion point is at least as near as the row after it -/\nabbrev lookup_before_is_nearer (time : Nat → α) (before after : Nat) (t : α) : Prop :=\n  {c.s}\n')
+    return '\n'.join(out)
+
+
 def find_self_assign(ev, cls, meth, attr):
     m = ev.method(cls, meth)
     for n in ast.walk(m) if m else []:
@@ -1799,6 +1893,8 @@ def generate(repo: Path) -> str:
            'zero_correct', 'zero_fails', 'zero_result'], lambda: emit_zero(ev))
     group(['loop_body'], lambda: emit_loop_body(ev))
     group(['init_trajectory'], lambda: emit_init_trajectory(ev))
+    group(['apex_init', 'apex_cond', 'apex_rising', 'apex_move_right', 'apex_move_left', 'lookup_distance_cond', 'lookup_time_cond',
+           'lookup_time_key', 'lookup_within_deviation', 'lookup_before_is_nearer'], lambda: emit_lookup(ev))
     group(['danger_half', 'danger_begin_danger_hit', 'danger_end_danger_hit'], lambda: emit_danger(ev))
     group(['interp_low', 'interp_low_value', 'interp_high', 'interp_high_value', 'interp_init', 'interp_cond', 'interp_in_segment',
            'interp_value', 'interp_goes_left', 'interp_left_move', 'interp_right_move', 'bcpoint_mach_of_v'], lambda: emit_interp(ev))
